@@ -205,8 +205,9 @@ fn apply(m: &[[f64; 2]; 2], p: [f64; 2]) -> [f64; 2] {
 }
 
 pub fn gen_polygon_case<R: Rng>(rng: &mut R) -> Case {
-    let n: usize = rng.gen_range(3, 13);
-    let shape = match rng.gen_range(0, 10) {
+    // (occasionally very many sides: the CLI accepts any --sides n)
+    let n: usize = if rng.gen_range(0, 400) == 0 { [64, 257, 300, 360, 512][rng.gen_range(0, 5)] } else { rng.gen_range(3, 13) };
+    let shape = match if n > 12 { 9 } else { rng.gen_range(0, 10) } {
         0 => ShapeSpec::Radial { radii: vec![rng.gen_range(0.3, 2.); n] },
         1 | 2 | 3 => ShapeSpec::Radial { radii: convex_radii(rng, n) },
         _ => ShapeSpec::Polygon { sides: n },
@@ -322,7 +323,7 @@ pub fn gen_disc_case<R: Rng>(rng: &mut R) -> Case {
 }
 
 pub fn run(ctx: &Ctx) {
-    ctx.set_rule("two placed copies of one shape (regular 3..12-gons, convex radial polygons, circle, trimers): random relative placements and constructed alignments (coincident, parallel edges slid along an edge with face contact at 2 r_in (1 +- {0,1e-12,1e-7,1e-3}), shared vertex, vertex on edge, mirror images, disc contact at (r1+r2)(1 +- ...)), each under base frames {identity, k pi/4, random, 100-1000 from the origin, reflected}; 15% of the copies are placed in two steps (a placed copy transformed again), 5% are passed through JSON first; library answer (both argument orders) vs separating-axis depth / centre distance computed from the library-placed coordinates; required only when |depth| > 1e-9; non-trivial = |depth| < 0.1 or any constructed alignment; distinct by quantised (shape, construction, depth, offset)");
+    ctx.set_rule("two placed copies of one shape (regular 3..12-gons and occasionally 64..512-gons, convex radial polygons, circle, trimers): random relative placements and constructed alignments (coincident, parallel edges slid along an edge with face contact at 2 r_in (1 +- {0,1e-12,1e-7,1e-3}), shared vertex, vertex on edge, mirror images, disc contact at (r1+r2)(1 +- ...)), each under base frames {identity, k pi/4, random, 100-1000 from the origin, reflected}; 15% of the copies are placed in two steps (a placed copy transformed again), 5% are passed through JSON first; library answer (both argument orders) vs separating-axis depth / centre distance computed from the library-placed coordinates; required only when |depth| > 1e-9; non-trivial = |depth| < 0.1 or any constructed alignment; distinct by quantised (shape, construction, depth, offset)");
     ctx.assume("convex polygons only (separating-axis theorem); non-convex radial shapes are skipped");
     let n = ctx.tier.pick(40_000u64, 4_000_000u64);
     par_shards(ctx, 12, 64, |_, rng, st| {
